@@ -5,6 +5,7 @@ import (
 	"go/constant"
 	"go/token"
 	"go/types"
+	"regexp"
 	"sort"
 	"strings"
 
@@ -12,7 +13,7 @@ import (
 )
 
 func init() {
-	props["C05"] = &propDef{run: runC05, explanation: "Partial (thin): that the 377-line recursive-descent re-serialiser and the number formatter produce the RFC 8785 form for every I-JSON value (fixed point, value preservation, spelling independence) is value-level and NOT decided. Decided statically — the constants and tables the RFC fixes, each a necessary condition: (T1) the two escape tables hold the seven RFC 8785 two-character escapes pairwise aligned, and reader and writer index both tables with one loop variable; (K1) the writer emits the remaining control characters (< 0x20) with the format \\u%04x (lower-case hex) and the reader rejects raw control bytes inside strings; (K2) NumberToJSON rejects NaN/Infinity by the exponent mask 0x7ff0000000000000, maps ±0 to \"0\", and selects fixed notation exactly for 1e-6 ≤ |x| < 1e21; (P1) the member sort key is unicode/utf16.Encode of the runes of the parsed member name, the ordering function reads only sort keys, equal keys raise an error, and a preceding key is inserted before the compared element; (P2) MarshalCanonical hands every value to Transform (json.Marshal first unless it already is []byte); (K3) the whitespace set is {0x20,0x0a,0x0d,0x09} and the literal table {true,false,null}. (K2) every string-valued call the accepted number text depends on is strconv.FormatFloat; (P2) canonicalisation, hashing and commitment functions read no package-level state that changes after initialisation. A string token is emitted as writer(reader()) (P4). With no differing code unit the shorter sort key precedes, equal keys raise the duplicate error, a longer key does not precede (three orderings of the two lengths). (K4) the value of a \\uXXXX escape is the library's base-16 parse of its digits; (K3) no byte cut from a wider integer is written, every byte set that mentions whitespace holds all four whitespace characters. Nothing orders two strings as strings; scanner rules K5 (escape values uncompared, string bytes not through the ASCII-only reader, table searches found/not-found only, structural characters through the skipping scanner, position loops advance). (K5f) closed set of scanner refusals; (K5g) every exit of Transform behind the trailing-input loop; C19.A/B on the canonicalizer's functions."}
+	props["C05"] = &propDef{run: runC05, explanation: "Partial (thin): that the 377-line recursive-descent re-serialiser and the number formatter produce the RFC 8785 form for every I-JSON value (fixed point, value preservation, spelling independence) is value-level and NOT decided. Decided statically — the constants and tables the RFC fixes, each a necessary condition: (T1) the two escape tables hold the seven RFC 8785 two-character escapes pairwise aligned, and reader and writer index both tables with one loop variable; (K1) the writer emits the remaining control characters (< 0x20) with the format \\u%04x (lower-case hex) and the reader rejects raw control bytes inside strings; (K2) NumberToJSON rejects NaN/Infinity by the exponent mask 0x7ff0000000000000, maps ±0 to \"0\", and selects fixed notation exactly for 1e-6 ≤ |x| < 1e21; (P1) the member sort key is unicode/utf16.Encode of the runes of the parsed member name, the ordering function reads only sort keys, equal keys raise an error, and a preceding key is inserted before the compared element; (P2) MarshalCanonical hands every value to Transform (json.Marshal first unless it already is []byte); (K3) the whitespace set is {0x20,0x0a,0x0d,0x09} and the literal table {true,false,null}. (K2) every string-valued call the accepted number text depends on is strconv.FormatFloat; (P2) canonicalisation, hashing and commitment functions read no package-level state that changes after initialisation. A string token is emitted as writer(reader()) (P4). With no differing code unit the shorter sort key precedes, equal keys raise the duplicate error, a longer key does not precede (three orderings of the two lengths). (K4) the value of a \\uXXXX escape is the library's base-16 parse of its digits; (K3) no byte cut from a wider integer is written, every byte set that mentions whitespace holds all four whitespace characters. Nothing orders two strings as strings; scanner rules K5 (escape values uncompared, string bytes not through the ASCII-only reader, table searches found/not-found only, structural characters through the skipping scanner, position loops advance). (K5f) closed set of scanner refusals; (K5g) every exit of Transform behind the trailing-input loop; C19.A/B on the canonicalizer's functions. (K5h) per-level state of the recursion; (K5i) look-ahead restores the position; (K5j) string bytes read as they are."}
 }
 
 // globalByteSlice: constants of a package-level []byte / []string literal initialised in init.
@@ -1832,7 +1833,181 @@ func (c *Ctx) jcsScannerRules(tr *ssa.Function) {
 		}
 		c.Check("C05.K5", "scanner:closed-set-of-refusals", cell != nil && len(gs) >= 9 && len(extra) == 0, tr.Pos(), fmt.Sprintf("errors that reach the error Transform hands back: %v; outside the documented syntax errors: %v", gs, extra))
 	}
-	c.Min("C05.K5", 7)
+	// K5h–K5j: state of the scanner
+	{
+		var pos, errCell *ssa.Alloc
+		forEachInstr(raw, func(in ssa.Instruction) {
+			if st, ok := in.(*ssa.Store); ok {
+				if fv, isFV := st.Addr.(*ssa.FreeVar); isFV {
+					if b, isAl := bindingOfFV(fv).(*ssa.Alloc); isAl && isIntType(derefT(b.Type())) {
+						pos = b
+					}
+				}
+			}
+		})
+		forEachInstr(tr, func(in ssa.Instruction) {
+			if al, ok := in.(*ssa.Alloc); ok && isErrType(derefT(al.Type())) {
+				for _, r := range returnsOf(tr) {
+					if len(r.Results) == 2 {
+						if ld, isLd := r.Results[1].(*ssa.UnOp); isLd && ld.X == ssa.Value(al) {
+							errCell = al
+						}
+					}
+				}
+			}
+		})
+		cellOf := func(v ssa.Value) ssa.Value {
+			if fv, isFV := v.(*ssa.FreeVar); isFV {
+				return bindingOfFV(fv)
+			}
+			return v
+		}
+		// K5h every nesting level has its own state: a closure that takes part in the recursion (it can reach itself
+		// through the calls of Transform's closures) stores into no variable of Transform but the input position and the
+		// error — a "first element" flag kept outside is shared by an array and the arrays inside it
+		{
+			calls := map[*ssa.Function][]*ssa.Function{}
+			for _, f := range fns {
+				if f.Blocks == nil {
+					continue
+				}
+				forEachInstr(f, func(in ssa.Instruction) {
+					if cl, ok := in.(*ssa.Call); ok {
+						for _, g := range c.Callees(&cl.Call) {
+							calls[f] = append(calls[f], g)
+						}
+					}
+				})
+			}
+			reaches := func(from, to *ssa.Function) bool {
+				seen := map[*ssa.Function]bool{}
+				var walk func(f *ssa.Function) bool
+				walk = func(f *ssa.Function) bool {
+					for _, g := range calls[f] {
+						if g == to {
+							return true
+						}
+						if !seen[g] {
+							seen[g] = true
+							if walk(g) {
+								return true
+							}
+						}
+					}
+					return false
+				}
+				return walk(from)
+			}
+			var bad []string
+			n := 0
+			// (the closures of the recursion, and the closures they call: a flag kept by a pair of helper closures is shared
+			// just the same)
+			var rec []*ssa.Function
+			for _, f := range fns {
+				if f.Parent() != nil && f.Blocks != nil && reaches(f, f) {
+					rec = append(rec, f)
+				}
+			}
+			for _, f := range fns {
+				if f.Parent() == nil || f.Blocks == nil {
+					continue
+				}
+				inRec := false
+				for _, r := range rec {
+					if r == f || reaches(r, f) {
+						inRec = true
+					}
+				}
+				if !inRec {
+					continue
+				}
+				if reaches(f, f) {
+					n++
+				}
+				forEachInstr(f, func(in ssa.Instruction) {
+					st, ok := in.(*ssa.Store)
+					if !ok {
+						return
+					}
+					al, isAl := cellOf(st.Addr).(*ssa.Alloc)
+					if !isAl || al.Parent() != tr || al == pos || al == errCell {
+						return
+					}
+					bad = append(bad, fmt.Sprintf("%s: %s, part of the recursion, stores into Transform's variable %s, shared by every nesting level", c.pos(st.Pos()), f.Name(), c.Path(al, nil)))
+				})
+			}
+			c.Check("C05.K5", "recursion:per-level-state-stays-in-the-level", pos != nil && errCell != nil && n >= 3 && len(bad) == 0, tr.Pos(), fmt.Sprintf("%d closures take part in the recursion; none stores into a variable of Transform other than the position and the error", n), bad...)
+		}
+		// K5i looking ahead leaves the position where it was: a closure that calls the skipping scanner and then writes the
+		// position writes back what it read from the position before that call
+		{
+			var bad []string
+			n := 0
+			for _, f := range fns {
+				if f.Parent() == nil || f.Blocks == nil || f == raw || !isByteFn(f) || len(f.Params) != 0 {
+					continue
+				}
+				var scans []*ssa.Call
+				forEachInstr(f, func(in ssa.Instruction) {
+					if cl, ok := in.(*ssa.Call); ok {
+						for _, g := range c.Callees(&cl.Call) {
+							if g != raw && g.Parent() != nil && isByteFn(g) && len(naturalLoops(g)) > 0 {
+								scans = append(scans, cl)
+							}
+						}
+					}
+				})
+				if len(scans) == 0 {
+					continue
+				}
+				forEachInstr(f, func(in ssa.Instruction) {
+					st, ok := in.(*ssa.Store)
+					if !ok || cellOf(st.Addr) != ssa.Value(pos) {
+						return
+					}
+					n++
+					ld, isLd := st.Val.(*ssa.UnOp)
+					saved := isLd && ld.Op == token.MUL && cellOf(ld.X) == ssa.Value(pos)
+					if saved {
+						for _, sc := range scans {
+							if !instrDominates(ld, sc) {
+								saved = false
+							}
+						}
+					}
+					if !saved {
+						bad = append(bad, fmt.Sprintf("%s: %s moves the position to %s after looking ahead (expected: the position read before the scan)", c.pos(st.Pos()), f.Name(), c.Path(st.Val, nil)))
+					}
+				})
+			}
+			c.Check("C05.K5", "look-ahead:position-restored", pos != nil && n >= 1 && len(bad) == 0, tr.Pos(), fmt.Sprintf("%d write(s) of the position in look-ahead closures; each puts back the position saved before the scan", n), bad...)
+		}
+		// K5j inside a string the bytes are read from the input as they are: the structural reader (which refuses bytes
+		// above 0x7f) is called by the string reader only behind a backslash or at the end of the input
+		{
+			var bad []string
+			n := 0
+			for _, f := range fns {
+				if f.Parent() == nil || f.Blocks == nil || len(callsOf(f, reader)) == 0 || len(naturalLoops(f)) == 0 || f == reader {
+					continue
+				}
+				for _, cl := range callsOf(f, raw) {
+					n++
+					okC := false
+					for _, cnd := range c.condsOf(cl.Block()) {
+						if strings.HasSuffix(cnd, " == 92)=true") || strings.HasSuffix(cnd, " != 92)=false") || regexp.MustCompile(`^\(.* < .*\)=false$|^\(.* >= .*\)=true$|^\(.* <= .*\)=true$`).MatchString(cnd) && strings.Contains(cnd, "len(") {
+							okC = true
+						}
+					}
+					if !okC {
+						bad = append(bad, fmt.Sprintf("%s: %s reads a byte of a string through the structural reader %s (not behind a backslash, not at the end of the input)", c.pos(cl.Pos()), f.Name(), raw.Name()))
+					}
+				}
+			}
+			c.Check("C05.K5", "strings:bytes-read-as-they-are", n >= 2 && len(bad) == 0, tr.Pos(), fmt.Sprintf("%d call(s) of the structural reader in the string reader, each behind a backslash or at the end of the input", n), bad...)
+		}
+	}
+	c.Min("C05.K5", 10)
 }
 
 // derived0: v and what it is converted from (conversions, φ), backwards.
